@@ -5,7 +5,10 @@
   conclusion is proved under the weaker `BKC` ("benign kind changes"), which allows
     symlink -> file, dir -> file               (the file being staged or the output of a transposition; whatever
                                                 lies below the old directory — repair of F8 (1)/(2)),
-    file -> dir                                (the old file not being a transposition source),
+    file -> dir                                (the old file not being a transposition source: `BKC.sources`;
+                                                Wharf/Proofs/CommitAside.lean removes that restriction — such a
+                                                source steps aside first, `moveSourcesAside` — by applying the
+                                                lemmas of this file to a virtual old build),
     symlink -> dir,
     file -> symlink, dir -> symlink            (whatever becomes of the old file or of what is below the directory),
   provided a directory that replaces a file or a symlink is listed before the directories below it.
@@ -371,26 +374,34 @@ theorem tsOf_new {old new : Build} {w : Work} {tr : Transpo} (h : tr ∈ tsOf ol
   place, everything else is as in the old tree.  What differs is how it comes about — an old file or symlink
   standing where a new directory goes is removed (`ensureDirs_spec'`, which needs `dirOrder`). -/
 
-theorem ensureDirsPhase_spec' {old new : Build} (ho : BWF old) (hn : BWF new)
+/-- on any tree that holds exactly the old build (`t₀.get = (treeOfBuild old).get`) -/
+theorem ensureDirsPhase_specT {old new : Build} (ho : BWF old) (hn : BWF new)
     (hord : new.dirs.Pairwise (fun a b => isPrefix b a = true →
-      b ∉ old.files.map (·.1) ∧ b ∉ old.symlinks.map (·.1))) :
-    ∃ t₁, new.dirs.foldlM ensureDir (treeOfBuild old) = .ok t₁ ∧ Ensured new (treeOfBuild old) t₁ := by
-  have hI0 := tinv_treeOfBuild ho
+      b ∉ old.files.map (·.1) ∧ b ∉ old.symlinks.map (·.1)))
+    {t₀ : Tree} (hI0 : TInv t₀) (hg0 : ∀ q, t₀.get q = (treeOfBuild old).get q) :
+    ∃ t₁, new.dirs.foldlM ensureDir t₀ = .ok t₁ ∧ Ensured new (treeOfBuild old) t₁ := by
   obtain ⟨td, h1, hId, hdd, hfd, _⟩ := ensureDirs_spec' (· ∈ new.dirs)
     (fun p hp j hj => take_mem_dirs hn hp hj)
     (fun p hp => hn.ne (mem_pathsOf.mpr (Or.inl hp)))
-    (fun p hp => hn.nodd (mem_pathsOf.mpr (Or.inl hp))) new.dirs (treeOfBuild old) hI0
+    (fun p hp => hn.nodd (mem_pathsOf.mpr (Or.inl hp))) new.dirs t₀ hI0
     (fun _ h => h) (fun q hq => Or.inr hq)
     (hord.imp_of_mem (by
       intro a b _ hb h hpre
       obtain ⟨h1, h2⟩ := h hpre
+      simp only [DirOrNone, hg0]
       by_cases hbo : b ∈ pathsOf old
       · rcases mem_pathsOf.mp hbo with h | h | h
         · exact Or.inl (get_dir_treeOfBuild ho h)
         · exact absurd h h2
         · exact absurd h h1
       · exact Or.inr (get_none_treeOfBuild (hn.ne (mem_pathsOf.mpr (Or.inl hb))) hbo)))
-  exact ⟨td, h1, hId, hdd, hfd⟩
+  exact ⟨td, h1, hId, hdd, fun q hq => (hfd q hq).trans (hg0 q)⟩
+
+theorem ensureDirsPhase_spec' {old new : Build} (ho : BWF old) (hn : BWF new)
+    (hord : new.dirs.Pairwise (fun a b => isPrefix b a = true →
+      b ∉ old.files.map (·.1) ∧ b ∉ old.symlinks.map (·.1))) :
+    ∃ t₁, new.dirs.foldlM ensureDir (treeOfBuild old) = .ok t₁ ∧ Ensured new (treeOfBuild old) t₁ :=
+  ensureDirsPhase_specT ho hn hord (tinv_treeOfBuild ho) (fun _ => rfl)
 
 /-- a transposition source is still there, with its old content, after `ensureDirs`: it has not become a
     directory (`sources`), and the directories above it are still directories -/
@@ -489,6 +500,10 @@ structure Transposed' (old new : Build) (w : Work) (t₁ t₂ : Tree) : Prop whe
   overlays : ∀ i ∈ w.overlayFiles, ∀ p d, new.files[i]? = some (p, d) → ∃ d', t₂.get p = some (.file d')
   frame : ∀ q, q ∉ srcsOf old new w → (∀ tr ∈ tsOf old new w, tr.outputPath ≠ q) →
     (∀ f ∈ new.files.map (·.1), isPrefix f q = false) → t₂.get q = t₁.get q
+  /-- a source that is not a path of the new build and does not look like a temporary name is gone -/
+  consumed : ∀ p ∈ srcsOf old new w, p ∉ pathsOf new →
+    (∀ tr ∈ tsOf old new w, ∀ k, seedName tr.outputPath k ≠ p) →
+    (∀ f ∈ new.files.map (·.1), isPrefix f p = false) → t₂.get p = none
 
 theorem transpositions_spec' {old new : Build} {w : Work} (ho : BWF old) (hn : BWF new) (hb : BKC old new w)
     (hw : WOK old new w) {o₁ o₂ : List Path}
@@ -524,7 +539,7 @@ theorem transpositions_spec' {old new : Build} {w : Work} (ho : BWF old) (hn : B
     · obtain ⟨d, h, _⟩ := hT2 tr htr
       exact ho.dir_not_file hd (hno ▸ List.mem_map.mpr ⟨_, h, rfl⟩)
     · exact hc ⟨hno, List.mem_append.mpr (Or.inr hd)⟩
-  obtain ⟨t₂, a1, a2, a3, a4, a5, a6⟩ := transp_core ho hn (Soft old new) (tsOf old new w)
+  obtain ⟨t₂, a1, a2, a3, a4, a5, a6, a7⟩ := transp_core ho hn (Soft old new) (tsOf old new w)
     (srcsOf old new w) old.dirs o₁ o₂
     (ovPaths new w) (tsOf_outputs_nodup hn hw) hT2 (fun _ => mem_srcsOf)
     (h₁.nodup_iff.mpr (srcsOf_nodup old new w)) (fun _ => h₁.mem_iff)
@@ -533,7 +548,7 @@ theorem transpositions_spec' {old new : Build} {w : Work} (ho : BWF old) (hn : B
     (fun tr htr hc => he.xslot_of_newfile ho hn (tsOf_new htr) (hnd tr htr hc))
     (fun tr htr k hfr => he.xslot_of_temp hn (tsOf_new htr) hfr)
     (fun p hp d hmem => he.xplain_of_src ho hn hb hp hmem)
-  refine ⟨t₂, by rw [applyTranspositions_eq]; exact a1, a2, ?_, ?_, ?_, ?_⟩
+  refine ⟨t₂, by rw [applyTranspositions_eq]; exact a1, a2, ?_, ?_, ?_, ?_, ?_⟩
   · intro q hqf hqb
     exact a3 q (fun h => hqf h.1) (fun tr htr _ => ⟨fun h => hqf (h ▸ tsOf_new htr), hqb _ (tsOf_new htr)⟩)
   · intro st hst p d hf
@@ -557,6 +572,16 @@ theorem transpositions_spec' {old new : Build} {w : Work} (ho : BWF old) (hn : B
     exact get_file_treeOfBuild ho (p := e.1) (d := e.2) he1
   · intro q hqs hqo hqb
     exact a6 q hqs hqo (fun tr htr _ => hqb _ (tsOf_new htr))
+  · intro p hp hpn hsd hpb
+    apply a7 p hp _ hpn hsd (fun tr htr => hpb _ (tsOf_new htr))
+    cases hh : (ovPaths new w).contains p with
+    | false => rfl
+    | true =>
+      exfalso
+      have hp' := List.contains_iff_mem.mp hh
+      simp only [ovPaths, List.mem_filterMap, Option.map_eq_some_iff] at hp'
+      obtain ⟨i, _, e, hie, rfl⟩ := hp'
+      exact hpn (mem_pathsOf.mpr (Or.inr (Or.inr (List.mem_map.mpr ⟨e, List.mem_of_getElem? hie, rfl⟩))))
 
 /-! ### staged moves onto whatever stands there -/
 
@@ -620,12 +645,15 @@ theorem stageFold_specD {new : Build} (hinj : FilesInj new) : ∀ (L : List Nat)
 
 /-! ### putting the phases after the transpositions together -/
 
-theorem finish_spec' {old new : Build} {w : Work} (ho : BWF old) (hn : BWF new)
+/-- the phases between the transpositions and ghost deletion: the new build is in place, the ghosts are as
+    `deleteGhosts` needs them (`PreGhost`); a path outside the new build that held nothing after the
+    transpositions still holds nothing -/
+theorem finish_pre' {old new : Build} {w : Work} (ho : BWF old) (hn : BWF new)
     (hw : WOK old new w) {t₁ t₂ : Tree} (he : Ensured new (treeOfBuild old) t₁)
     (ht : Transposed' old new w t₁ t₂) :
-    ∃ t₃ t₄ t₅ t₆, applyMoves new w t₂ = .ok t₃ ∧ applyOverlays new w t₃ = .ok t₄ ∧
+    ∃ t₃ t₄ t₅, applyMoves new w t₂ = .ok t₃ ∧ applyOverlays new w t₃ = .ok t₄ ∧
       new.symlinks.foldlM (fun t (p, d) => ensureSymlink t p d) t₄ = .ok t₅ ∧
-      deleteGhosts old new t₅ = .ok t₆ ∧ TInv t₆ ∧ ∀ p, t₆.get p = (treeOfBuild new).get p := by
+      PreGhost old new t₅ ∧ (∀ q, q ∉ pathsOf new → t₂.get q = none → t₅.get q = none) := by
   have hinj := hn.filesInj
   have hfile_mem : ∀ {i : Nat} {p : Path} {d : List Byte}, new.files[i]? = some (p, d) →
       p ∈ new.files.map (·.1) := fun hf => List.mem_map.mpr ⟨_, mem_files_of_getElem? hf, rfl⟩
@@ -874,9 +902,24 @@ theorem finish_spec' {old new : Build} {w : Work} (ho : BWF old) (hn : BWF new)
         · obtain ⟨e, he1, he2⟩ := List.mem_map.mp h
           rw [← he2, get_file_treeOfBuild ho (p := e.1) (d := e.2) he1] at h1
           cases h1
+  refine ⟨t₃, t₄, t₅, by rw [applyMoves_eq]; exact h3, by rw [applyOverlays_eq]; exact h4, h5, hpre, ?_⟩
+  intro q hqn hq2
+  rcases hcases q with ⟨f, hf, hpre'⟩ | hqb
+  · exact hbelow5 q f hf hpre'
+  · rw [h45 q hqn]
+    split
+    · rfl
+    · rw [h24 q (fun h => hqn (mem_pathsOf.mpr (Or.inr (Or.inr h)))) hqb, hq2]
+
+theorem finish_spec' {old new : Build} {w : Work} (ho : BWF old) (hn : BWF new)
+    (hw : WOK old new w) {t₁ t₂ : Tree} (he : Ensured new (treeOfBuild old) t₁)
+    (ht : Transposed' old new w t₁ t₂) :
+    ∃ t₃ t₄ t₅ t₆, applyMoves new w t₂ = .ok t₃ ∧ applyOverlays new w t₃ = .ok t₄ ∧
+      new.symlinks.foldlM (fun t (p, d) => ensureSymlink t p d) t₄ = .ok t₅ ∧
+      deleteGhosts old new t₅ = .ok t₆ ∧ TInv t₆ ∧ ∀ p, t₆.get p = (treeOfBuild new).get p := by
+  obtain ⟨t₃, t₄, t₅, h3, h4, h5, hpre, _⟩ := finish_pre' ho hn hw he ht
   obtain ⟨t₆, h6, hI6, hg6⟩ := deleteGhosts_spec ho hn hpre
-  exact ⟨t₃, t₄, t₅, t₆, by rw [applyMoves_eq]; exact h3, by rw [applyOverlays_eq]; exact h4, h5, h6,
-    hI6, hg6⟩
+  exact ⟨t₃, t₄, t₅, t₆, h3, h4, h5, h6, hI6, hg6⟩
 
 /-- C02 with benign kind changes: the commit over the tree holding the old build yields a tree holding the
     new build. -/
@@ -889,7 +932,12 @@ theorem commit_spec' {old new : Build} {w : Work} (ho : BWF old) (hn : BWF new) 
   obtain ⟨t₂, e2, ht⟩ := transpositions_spec' ho hn hb hw h₁ h₂ he
   obtain ⟨t₃, t₄, t₅, t₆, e3, e4, e5, e6, hI6, hg6⟩ := finish_spec' ho hn hw he ht
   refine ⟨t₆, ?_, hI6, hg6⟩
-  simp only [commit, bind, Except.bind, e1, e2, e3, e4, e5, e6]
+  have e0 : moveSourcesAside old new w (treeOfBuild old) = .ok (treeOfBuild old, []) :=
+    moveSourcesAside_nil_of_sources (by
+      intro st hst
+      obtain ⟨np, op, d, f1, f2⟩ := hw.transp st hst
+      refine ⟨op, d, f2, hb.sources op (mem_srcsOf.mpr ⟨⟨op, np⟩, mem_tsOf.mpr ⟨st, hst, d, d, f1, f2⟩, rfl⟩)⟩) _
+  simp only [commit, bind, Except.bind, e0, e1, e2, e3, e4, e5, e6]
 
 /-- no kind change at all is a benign kind change -/
 theorem NKC.toBKC {old new : Build} (w : Work) (ho : BWF old) (hn : BWF new) (hk : NKC old new) :
